@@ -1001,3 +1001,13 @@ func init() {
 	}
 	theory["crypto/sha256.Sum256"] = h
 }
+
+func init() {
+	theory["bytes.Equal"] = func(x *Exec, f *Frame, st *State, c *CallInfo) Val {
+		a, b := x.asBytes(st, c.Args[0]), x.asBytes(st, c.Args[1])
+		if a == nil || b == nil {
+			return x.freshTerm("byteseq", SBool)
+		}
+		return Eq(a, b)
+	}
+}
